@@ -94,6 +94,11 @@ func vfQuery(malformed bool) {
 		}
 	}
 	zzvf.Assert(vfQuiescent(w), "run-reaches-quiescence")
+	for _, r := range runs {
+		for _, it := range r.issued {
+			zzvf.Assert(it.responses == 1, "every-query-subscribe-gets-exactly-one-response")
+		}
+	}
 	// the normalised query each established subscription ended up on
 	distinct := map[string]bool{}
 	for i, rid := range rids {
